@@ -68,6 +68,9 @@ def name_forms(path):
 def short(path):
     """Human-readable short form: last two segments, generics stripped."""
     p = strip_generics(path)
+    mi = _INHERENT_IMPL_RE.match(p)
+    if mi and " for " not in mi.group(2):
+        return "%s::%s%s" % (mi.group(2).split("::")[-1], mi.group(3), mi.group(4))
     m = _LOCAL_IMPL_RE.match(p)
     if m:
         tr = m.group(2).split("::")[-1]
